@@ -124,6 +124,10 @@ pub fn s_life(name: &str, two_parts: bool, extra: bool, retry: bool) -> WCfg {
 
 pub fn with_props(mut c: WCfg, ps: &[&'static str]) -> Arc<WCfg> {
     props(&mut c, ps);
+    if let Some(n) = std::env::var("VERIF_PARKS").ok().and_then(|v| v.parse().ok()) {
+        // experiment knob (never set by the registered commands)
+        c.max_parks = n;
+    }
     Arc::new(c)
 }
 
